@@ -102,11 +102,7 @@ func getAliasMeta(
 		alias.Name = underlyingEnum.Name
 		alias.AliasType = string(underlyingEnum.ValueKind)
 
-		values := []string{}
-		for _, v := range underlyingEnum.Values {
-			values = append(values, fmt.Sprintf("%v", v.Value))
-		}
-		alias.Values = values
+		alias.Values = underlyingEnum.DistinctValues()
 	} else {
 		// If the type is not an enum, check if it's an alias
 		underlyingAlias := ctx.MetaCache.GetAlias(typeSymKey)
